@@ -138,7 +138,7 @@ fn row_strategy() -> impl Strategy<Value = Row> {
         detect,
         build,
         proptest::collection::vec(pre_strategy(), 9),
-        (proptest::bool::weighted(0.9), proptest::bool::weighted(0.05), prop_oneof![8 => Just(0u8), 1 => Just(1u8), 1 => Just(2u8), 1 => Just(3u8)], prop_oneof![4 => Just(0u8), 4 => Just(1u8), 1 => Just(2u8)]),
+        (proptest::bool::weighted(0.9), proptest::bool::weighted(0.05), prop_oneof![8 => Just(0u8), 1 => Just(1u8), 1 => Just(2u8), 1 => Just(3u8)], prop_oneof![4 => Just(0u8), 4 => Just(1u8), 1 => Just(2u8), 1 => Just(3u8)]),
     )
         .prop_map(|((exe, argc_raw, argc_right), bp, envp, detect, build, pre, (platform_present, platform_env_not_utf8, buildpack_plan, store_in))| {
             let right = if exe == 1 { 3 } else { 2 };
@@ -254,7 +254,7 @@ fn expectation(r: &Row) -> Expect {
     if r.bp_toml == BpToml::ApiOkRestInvalid {
         return Expect::Error { reached: false };
     }
-    let input_error = (r.platform_present && r.platform_env_not_utf8) || (name == "build" && (r.buildpack_plan != 0 || r.store_in == 2 || (r.store_in == 0 && r.pre[2] == Pre::Directory)));
+    let input_error = (r.platform_present && r.platform_env_not_utf8) || (name == "build" && (r.buildpack_plan != 0 || r.store_in >= 2 || (r.store_in == 0 && r.pre[2] == Pre::Directory)));
     if !r.env_present[1] || !r.env_present[2] {
         return Expect::NoReach;
     }
@@ -324,6 +324,7 @@ fn check_row(ctx: &Ctx, scratch: &Path, r: &Row) -> Check {
         match r.store_in {
             1 => std::fs::write(d.layers.join("store.toml"), "[metadata]\nold = \"store\"\n").unwrap(),
             2 => std::fs::write(d.layers.join("store.toml"), "[metadata\n").unwrap(),
+            3 => std::fs::write(d.layers.join("store.toml"), b"[metadata]\nk = \"\xff\"\n").unwrap(),
             _ => {}
         }
         if r.build.kind == 2 {
@@ -551,7 +552,7 @@ fn single_deviation_rows() -> Vec<Row> {
             r.pre[i] = Pre::Directory;
             rows.push(r);
         }
-        for (pp, pu, bplan, st) in [(false, false, 0, 0), (true, true, 0, 0), (true, false, 1, 0), (true, false, 2, 0), (true, false, 3, 0), (true, false, 0, 1), (true, false, 0, 2)] {
+        for (pp, pu, bplan, st) in [(false, false, 0, 0), (true, true, 0, 0), (true, false, 1, 0), (true, false, 2, 0), (true, false, 3, 0), (true, false, 0, 1), (true, false, 0, 2), (true, false, 0, 3)] {
             let mut r = base.clone();
             r.platform_present = pp;
             r.platform_env_not_utf8 = pu;
@@ -593,7 +594,7 @@ fn classify(ctx: &Ctx, r: &Row) {
     if !r.platform_present || r.platform_env_not_utf8 {
         dev += 1;
     }
-    if name == "build" && (r.buildpack_plan != 0 || r.store_in == 2) {
+    if name == "build" && (r.buildpack_plan != 0 || r.store_in >= 2) {
         dev += 1;
     }
     let _ = base;
@@ -603,7 +604,7 @@ fn classify(ctx: &Ctx, r: &Row) {
 }
 
 pub fn run(ctx: &Ctx) {
-    ctx.set_rule("rows of the product: executable name {detect, build, vbp, detect.sh, Build} x argument count 0..5 x buildpack.toml {api 0.10, 00.010, 0.9, 0.11, 1, 0.10.0, non-string api, api missing, malformed, file missing, api ok but rest invalid} x presence of each of CNB_BUILDPACK_DIR, CNB_TARGET_OS/ARCH/ARCH_VARIANT/DISTRO_NAME/DISTRO_VERSION x scripted behaviour (detect: pass, pass+generated plan, fail, error; build: every subset of {launch, store, build SBOM formats, launch SBOM formats}, buildpack error, layer error from a real failing layer request) x pre-existing output files {absent, sentinel bytes, a directory in the way} x inputs (platform dir missing, non-UTF-8 platform env file, buildpack plan missing/malformed/unknown key, store.toml missing/valid/malformed), each executed as a real process through a symlink. All single-dimension deviations from the all-valid rows are enumerated exhaustively, the rest of the product is sampled. Oracle: independent decision table over exit code, marker files written on entering detect/build/on_error, output files decoded by Python tomllib, and a snapshot differential of the scenario directory. Non-trivial: the row reaches buildpack code, or differs from the all-valid row in exactly one dimension; distinct = hash of the row.");
+    ctx.set_rule("rows of the product: executable name {detect, build, vbp, detect.sh, Build} x argument count 0..5 x buildpack.toml {api 0.10, 00.010, 0.9, 0.11, 1, 0.10.0, non-string api, api missing, malformed, file missing, api ok but rest invalid} x presence of each of CNB_BUILDPACK_DIR, CNB_TARGET_OS/ARCH/ARCH_VARIANT/DISTRO_NAME/DISTRO_VERSION x scripted behaviour (detect: pass, pass+generated plan, fail, error; build: every subset of {launch, store, build SBOM formats, launch SBOM formats}, buildpack error, layer error from a real failing layer request) x pre-existing output files {absent, sentinel bytes, a directory in the way} x inputs (platform dir missing, non-UTF-8 platform env file, buildpack plan missing/malformed/unknown key, store.toml missing/valid/malformed/not UTF-8), each executed as a real process through a symlink. All single-dimension deviations from the all-valid rows are enumerated exhaustively, the rest of the product is sampled. Oracle: independent decision table over exit code, marker files written on entering detect/build/on_error, output files decoded by Python tomllib, and a snapshot differential of the scenario directory. Non-trivial: the row reaches buildpack code, or differs from the all-valid row in exactly one dimension; distinct = hash of the row.");
     ctx.assume("missing CNB_TARGET_DISTRO_NAME/VERSION (optional in the spec, mandatory in libcnb): either not reaching buildpack code or behaving as if present is accepted");
     ctx.assume("feature `trace` off; argv and paths are UTF-8");
     let scratch = Scratch::new("c05");
